@@ -347,10 +347,20 @@ def main(path, default_bg, mode, premium):
                             if isinstance(decl, Declaration) and decl.name.startswith(
                                 "--"
                             ):
+                                previous = variables.get(decl.name)
+                                if (
+                                    previous is not None
+                                    and selector == "html"
+                                    and previous["selector"] == ":root"
+                                ):
+                                    # :root is more specific than html, so its
+                                    # definition wins whatever the order
+                                    continue
                                 variables[decl.name] = {
                                     "decl": decl,
                                     "value": tinycss2.serialize(decl.value).strip(),
                                     "rule": rule,  # Keep ref to rule
+                                    "selector": selector,
                                 }
 
             process_nodes_recursive(
